@@ -14,7 +14,15 @@ From BB Require Import BN Brute SpaceFacts TrapFacts PercolateFacts AttractorFac
   Strict PetriNet Control Meta FilterFacts PetriNetFacts TrappistFacts DiagramStruct DiagramSem1 DiagramCache
   DiagramDepth DiagramComplete Termination ControlFacts MetaFacts Candidates StrictFacts MinExpandFacts CandidatesFacts SymbolicTest SymbolicTestFacts Signed ReductionFacts ControlFacts2 Main Blocks BlocksFacts ObsFacts OwnerFacts CandidatesTerm
   PartialOwner BlockMath BlockComplete ASeeds ASeedsFacts LogChecks SkipRule SkipRuleFacts Names NamesFacts Perm PermFacts SCC SCCFacts SCCStruct ControlFacts3 SCCTerm FilterSym Main2 StrategyFacts ControlFacts4 SkipRuleFacts2 SCCComplete SCCAttr BlockComplete2 ControlFacts5 Iso SkipSem ControlFacts6.
-From BB Require Import PyLib PyLibSd PySrcSdBase PySrcSd PySrcSdFacts.
+From BB Require Import PyLib PyLibSd PySrcSdBase PySrcSd PySrcSdFacts PyLibCore PySrcCore PySrcCoreFacts.
+
+(* ... node_successors(id, compute=True) computes Diagram.node_successors: the primitive of the translated strategy drivers *)
+Theorem C04_source_node_successors : forall (fuel : nat) (N : net) (cfg : config) (pnc : nat -> bool) (w : pyst) (i : nat), CoreInv N w -> i < size (p_sd w) -> 1 <= max_motifs cfg -> S (size (fst (expand_one N cfg (p_sd w) i))) < fuel -> exists w' : pyst, p_sd w' = fst (fst (node_successors N cfg (p_sd w) i)) /\ CoreInv N w' /\ match snd (fst (node_successors N cfg (p_sd w) i)) with | RUnit => py_node_successors fuel N cfg pnc w i true = CRet w' (snd (node_successors N cfg (p_sd w) i)) | RBool b => py_node_successors fuel N cfg pnc w i true = CRaise w' (RBool b) | RNat k => py_node_successors fuel N cfg pnc w i true = CRaise w' (RNat k) | RIds l => py_node_successors fuel N cfg pnc w i true = CRaise w' (RIds l) | RRaised e => py_node_successors fuel N cfg pnc w i true = CRaise w' (RRaised e) | RFuel => py_node_successors fuel N cfg pnc w i true = CRaise w' RFuel end.
+Proof. exact py_node_successors_spec. Qed.
+
+(* translator tie: the function GENERATED from the current text of SuccessionDiagram._expand_one_node (PySrcCore.v; embedding PyLibCore.v) computes Diagram.expand_one for every diagram satisfying the class invariant CoreInv, every oracle for the percolated-net cache, and preserves CoreInv *)
+Theorem C04_source_expand_one_node : forall (fuel : nat) (N : net) (cfg : config) (pnc : nat -> bool) (w : pyst) (i : nat), CoreInv N w -> i < size (p_sd w) -> 1 <= max_motifs cfg -> S (size (fst (expand_one N cfg (p_sd w) i))) < fuel -> exists w' : pyst, p_sd w' = fst (expand_one N cfg (p_sd w) i) /\ CoreInv N w' /\ match snd (expand_one N cfg (p_sd w) i) with | RUnit => py_expand_one_node fuel N cfg pnc w i = CRet w' Datatypes.tt \/ py_expand_one_node fuel N cfg pnc w i = CNext w' Datatypes.tt | RBool b => py_expand_one_node fuel N cfg pnc w i = CRaise w' (RBool b) | RNat k => py_expand_one_node fuel N cfg pnc w i = CRaise w' (RNat k) | RIds l => py_expand_one_node fuel N cfg pnc w i = CRaise w' (RIds l) | RRaised e => py_expand_one_node fuel N cfg pnc w i = CRaise w' (RRaised e) | RFuel => py_expand_one_node fuel N cfg pnc w i = CRaise w' RFuel end.
+Proof. exact py_expand_one_node_spec. Qed.
 
 (* translator tie: the function GENERATED from the current text of biobalm/_sd_algorithms/expand_bfs.py (PySrcSd.v, regenerated on every run; embedding PyLibSd.v) equals the model's expand_bfs for every diagram, every limit and every fuel *)
 Theorem C04_source_expand_bfs : forall (fuel : nat) (N : net) (cfg : config) (d : sd) (start level_limit size_limit : option nat), py_expand_bfs fuel N cfg d start level_limit size_limit = expand_bfs fuel N cfg d start level_limit size_limit.
@@ -73,6 +81,8 @@ Definition ex_cfg : config := {| max_motifs := 1000 |}.
 Example C04_example : Forall plain [OExpandNode 0; ODfs (Some 1) (Some 0) (Some 3); OBfs None (Some 1) None].
 Proof. repeat constructor. Qed.
 
+Print Assumptions C04_source_node_successors.
+Print Assumptions C04_source_expand_one_node.
 Print Assumptions C04_source_expand_bfs.
 Print Assumptions C04_source_expand_dfs.
 Print Assumptions C04_run_invariants.
